@@ -40,6 +40,7 @@ REACH = ["encode_chunk", "_encode_channel", "decode_chunk_into", "_decode_channe
          "pad_block", "_pack_encoded_values", "_unpack_encoded_values"]
 WORKER_TIMEOUT = {"quick": 900, "thorough": 5400}
 BLOCK_CHOICES = [1, 2, 3, 4, 5, 8, 16]
+_SHARED = {}
 
 
 def gen_cases(tier, seed):
@@ -169,7 +170,16 @@ def run_case(case):
     v = []
     ctx = (f"{case['dtype']} shape(C,Z,Y,X)={case['shape']} block(x,y,z)={block} "
            f"labels={case['nlab']}/{case['mag']} layout={case['layout']}")
-    enc = ce.CompressedSegmentationEncoder(case["dtype"], C, block)
+    # the I/O layer keeps one encoder per scale and uses it for every chunk (full and border
+    # chunks of different shapes): half of the cases share encoders across cases
+    key = (case["dtype"], C, tuple(block))
+    if case["vseed"] % 2 == 0:
+        if key not in _SHARED:
+            _SHARED[key] = ce.CompressedSegmentationEncoder(case["dtype"], C, block)
+        enc = _SHARED[key]
+        obs["shared_encoder_calls"] = 1
+    else:
+        enc = ce.CompressedSegmentationEncoder(case["dtype"], C, block)
     try:
         buf = enc.encode(arr)
     except Exception as exc:  # noqa: BLE001
